@@ -26,18 +26,18 @@ GEN_FILES = ["GenBlame"]
 DRIVERS = ["blame"]
 THEOREMS = ["C09_porcelain_roundtrip", "C09_same_commit", "C09_split_preserves_lines",
             "C09_attribution_reverse_scan", "C09_later_entry_wins", "C09_not_listed_is_human",
-            "C09_overlay_spec", "C09_overlay_requested_path", "C09_rename_refuted",
+            "C09_overlay_spec", "C09_path_independent",
             "C09_json_expand", "C09_json_restrict", "C09_json_output_expands", "C09_json_default_agree",
-            "C09_ranges_validated", "C09_empty_file_rejected", "C09_single_number_range",
-            "C09_nonvacuous", "C09_rename_all_human", "C09_nonvacuous_json", "C09_nonvacuous_split"]
+            "C09_ranges_validated", "C09_empty_file_rejected", "C09_single_number_range", "C09_plus_count_range",
+            "C09_nonvacuous", "C09_rename_keeps_attribution", "C09_nonvacuous_json", "C09_nonvacuous_split"]
 CLAIM = {
     "text": "Machine-checked proof (Coq 8.16.1, closed) over an executable Gallina model of the blame pipeline: the "
             "line-porcelain parser recovers, for every well-formed list of blame groups git can print, exactly the commit, "
             "original line and final line of every line (round trip against a printer of git's format); splitting hunks by "
             "AI human author preserves these facts; get_line_attribution is the last listing entry with a prompt record; "
-            "the whole pipeline equals the specification `note(commit).(path in that commit).(original line)` whenever no "
-            "line's path-in-its-commit differs from the requested path, and is proved NOT to equal it otherwise "
-            "(C09_rename_refuted: the code looks the note up under the requested path and never reads `filename`); the "
+            "the whole pipeline equals the specification `note(commit).(path in that commit).(original line)` for every "
+            "requested path (the parser reads porcelain `filename`, the overlay looks the note up under it; "
+            "C09_path_independent: a rename changes no line's attribution); `-L n` / `-L n,+k` are read as git reads them; the "
             "--json `a-b` keys expand back to exactly the AI lines, commute with a -L restriction, and agree line by line "
             "with the author column of the default format. git's own blame (which commit a line comes from under -L, -w, "
             "--ignore-rev, a revision, --since) is the environment and is decided by the oracle against the real git.",
@@ -63,14 +63,14 @@ ASSUMPTIONS = [
     "git prints --line-porcelain in the documented format (header with group size on the first line of a group, "
     "metadata lines, tab-prefixed content); free text contains no CR/LF",
     "line numbers fit in u32 and are below 2^32-1 (the JSON grouping computes range_end + 1)",
+    "utils::unescape_git_path undoes git's C-style quoting of the paths it prints (names_agree; monitored against an "
+    "independent unquoter on every `filename` line of the real porcelain texts)",
     "no git author name is literally one of the 16-hex prompt hashes of the notes in play (--json filters AI lines by "
     "`prompt_records.contains_key(author)`)",
     "notes do not change while one blame runs (the code caches note and foreign-prompt lookups)",
 ]
 
-K1 = "C09-K1 AI lines of a renamed file are reported human (note is keyed by the old path, lookup uses the requested path)"
 K2 = "C09-K2 git-ai blame on an empty file exits 1 (`Invalid line range: 1:0`) where git blame exits 0"
-K4 = "C09-K4 `-L n` is read as n,n and `-L n,+k` as n,k (git: n to end of file / k lines from n)"
 
 HEXD = "0123456789abcdef"
 FAKE_GIT = """#!/bin/sh
@@ -174,7 +174,7 @@ def readable(x):
 def canon_pipe(d):
     if not isinstance(d, dict):
         return d
-    return {"hunks": d.get("hunks"), "lines": d.get("lines"), "prompts": sorted(d.get("prompts", []))}
+    return {"hunks": [h[:8] for h in (d.get("hunks") or [])], "lines": d.get("lines"), "prompts": sorted(d.get("prompts", []))}
 
 
 # ------------------------------------------------------------------ the model's view of a note
@@ -570,11 +570,10 @@ def compare_one(sim, notes, path, opts, stats):
     stats["boundary_lines"] += sum(1 for e in entries if e["boundary"])
 
     def classify(bad_lines, what, detail):
-        """bad lines all inside Known_C09 (path in the commit differs from the requested path) -> K1"""
-        if bad_lines and all(fname.get(l) is not None and fname.get(l) != path for l in bad_lines):
-            known.add(K1)
-        else:
-            fails.append(dict({"what": what, "path": path, "opts": opts, "bad_lines": sorted(bad_lines)[:20]}, **detail))
+        """every deviation is a failure (renamed files included: the lookup path was repaired)"""
+        ren = sorted(l for l in bad_lines if fname.get(l) is not None and fname.get(l) != path)
+        fails.append(dict({"what": what, "path": path, "opts": opts, "bad_lines": sorted(bad_lines)[:20],
+                           "bad_lines_with_other_path_in_commit": ren[:20]}, **detail))
 
     pathArg = path
     # ---- --json
@@ -663,31 +662,14 @@ def compare_one(sim, notes, path, opts, stats):
     return fails, known, out, exp
 
 
-def probe_odd_L(sim, path, arg, a, n):
-    """-L forms that git-ai accepts but reads differently from git (`n` -> n,n ; `n,+k` -> n,k, see parse_line_range /
-    C09_single_number_range).  Same lines as git -> fine; rejected (exit 1) when the reading is not a valid range ->
-    not a supported option; exactly the predicted lines -> the known class; anything else -> failure."""
-    rc, out, _ = sim.realgit("blame", "--line-porcelain", "-L", arg, "--", path)
-    if rc != 0:
-        return None
-    git_lines = set(e["final"] for e in read_line_porcelain(out))
-    lo, hi = (a, a) if "," not in arg else (a, int(arg.split(",+")[1]))
-    valid = 1 <= lo <= hi <= n
-    rc, dout, derr = sim.gitai("blame", "-L", arg, path, env_extra={"GIT_PAGER": "cat", "PAGER": "cat"})
-    if rc != 0:
-        if not valid:
-            return None
-        return {"what": "git-ai blame -L <odd form> failed although its reading is a valid range", "path": path,
-                "opts": ["-L", arg], "err": derr[-200:]}
-    d = read_default(dout)
-    if d is None:
-        return {"what": "git-ai blame -L <odd form> printed an unreadable line", "path": path, "opts": ["-L", arg]}
-    if set(d) == git_lines:
-        return None
-    if valid and set(d) == set(range(lo, hi + 1)):
-        return K4
-    return {"what": "-L form read neither as git does nor as parse_line_range predicts", "path": path, "opts": ["-L", arg],
-            "bad_lines": sorted(set(d) ^ git_lines)}
+def open_L_options(r, n):
+    """`-L n` (to the end of the file) and `-L n,+k` (k lines from n) — read as git reads them since the repair of
+    parse_line_range.  Only counts that stay inside the file: git clamps a longer one, git-ai rejects it like any
+    range past the end of the file (an existing test pins that), so it is not a supported combination."""
+    a = r.range(1, n)
+    if r.chance(1, 2):
+        return ["-L", str(a)]
+    return ["-L", f"{a},+{r.range(1, n - a + 1)}"]
 
 
 def lib_compare(sim, notes, home, path, mode_opts, stats):
@@ -732,8 +714,6 @@ def lib_compare(sim, notes, home, path, mode_opts, stats):
     bad |= set(l for l in set(exp) | set(got_ai) if (l in exp_ai) != (l in got_ai) or (l in exp_ai and got_ai[l] not in exp_ai[l]))
     if not bad:
         return [], set()
-    if all(fname.get(l) is not None and fname[l] != path for l in bad):
-        return [], {K1}
     return [{"what": "library blame differs from git blame + notes", "path": path, "mode": mode_opts, "bad_lines": sorted(bad)[:20],
              "expected_ai": {str(l): sorted(v) for l, v in exp_ai.items()}, "got_ai": {str(l): v for l, v in got_ai.items()}}], set()
 
@@ -766,6 +746,23 @@ def foreign_for(sim, shas):
     return res
 
 
+NAMES_BAD, NAMES_SEEN = [], [0]      # per worker process; returned by scenario()
+
+
+def unq_table(text):
+    """((QUOTED PATH)...) for the quoted names on the `filename` lines of a porcelain text: the quoted branch of
+    utils::unescape_git_path as the model's environment function, computed by the independent unquoter"""
+    names = set()
+    for l in text.split("\n"):
+        if l.endswith("\r"):
+            l = l[:-1]
+        if l.startswith("filename "):
+            nm = l[len("filename "):]
+            if len(nm) >= 2 and nm[0] == '"' and nm[-1] == '"':
+                names.add(nm)
+    return [[C.cps(nm), C.cps(c_unquote(nm))] for nm in sorted(names)], names
+
+
 def tie_on_real(sim, notes, home, path, text, model_ok, use_hash=1):
     """model vs in-process pipeline on the real porcelain text of this repository (wrapper feeds the same text)."""
     shas = sorted(set(m.group(1) for m in re.finditer(r"^([0-9a-f]{40}) ", text, re.M)))
@@ -775,8 +772,13 @@ def tie_on_real(sim, notes, home, path, text, model_ok, use_hash=1):
         ntab.append([C.cps(s), nm])
     o = [use_hash, 0, 0, 1]
     hb = " ".join(C.sx(x) for x in [C.cps(sim.repo), C.cps(path), o, C.cps(text)])
-    mb = " ".join(C.sx(x) for x in [C.cps(path), o, C.cps(text), ntab, foreign_for(sim, shas)])
+    mb = " ".join(C.sx(x) for x in [C.cps(path), o, C.cps(text), ntab, foreign_for(sim, shas), unq_table(text)[0]])
     hr = run_cases_env(C.VHARNESS, "c09-pipe", [("t", hb)], env=harness_env(sim, home)).get("t")
+    # monitor names_agree: utils::unescape_git_path on every name git printed = the independent unquoter
+    fn = sorted(set(l[len("filename "):] for l in text.split("\n") if l.startswith("filename ")))
+    ur = run_cases_env(C.VHARNESS, "c09-unquote", [(str(k), C.sx(C.cps(nm))) for k, nm in enumerate(fn)], env=harness_env(sim, home))
+    NAMES_BAD.extend(nm for k, nm in enumerate(fn) if ur.get(str(k)) != C.sx(C.cps(c_unquote(nm))))
+    NAMES_SEEN[0] += len(fn)
     if not model_ok:
         return None, hr, None
     mr = C.run_cases(C.driver_path("blame"), "c09-pipe", [("t", mb)], shards=1).get("t")
@@ -792,6 +794,8 @@ def scenario(args):
     stats = {"lines": 0, "ai_lines": 0, "renamed_lines": 0, "boundary_lines": 0, "overlap_lines": 0, "orphan_sessions": 0,
              "json_keys": [], "lib_cases": 0, "optsets": {}, "comparisons": 0}
     fails, known, ties = [], set(), []
+    del NAMES_BAD[:]
+    NAMES_SEEN[0] = 0
     try:
         info = exec_history(sim, steps)
         notes = Notes(sim)
@@ -856,17 +860,14 @@ def scenario(args):
                                                       "path": p, "binary": bj, "model": mj})
                                 except Exception:
                                     pass
-            # K4 probe (`-L n`, `-L n,+k`): one per scenario
+            # `-L n` / `-L n,+k` (formerly misread: regression for C09-K4), one per scenario
             if first and n >= 3:
                 first = False
-                a = r.range(1, n - 1)
-                arg = str(a) if r.chance(1, 2) else f"{a},+{r.range(1, n)}"
-                v = probe_odd_L(sim, p, arg, a, n)
-                stats["optsets"]["L-odd"] = stats["optsets"].get("L-odd", 0) + 1
-                if v == K4:
-                    known.add(K4)
-                elif v is not None:
-                    fails.append(v)
+                f, k, _, _ = compare_one(sim, notes, p, open_L_options(r, n), stats)
+                stats["optsets"]["L-open"] = stats["optsets"].get("L-open", 0) + 1
+                stats["comparisons"] += 1
+                fails += f
+                known |= k
             # options only the library accepts
             if r.chance(1, 2):
                 mo = {"w": True}
@@ -900,6 +901,7 @@ def scenario(args):
                     known |= k
         stats["json_keys"] = stats["json_keys"][:40]
         return {"idx": idx, "fails": fails, "known": sorted(known), "kinds": kinds, "stats": stats, "ties": ties,
+                "names_bad": list(NAMES_BAD), "names_seen": NAMES_SEEN[0],
                 "merge": (info["merge_ok"], info["merge_fail"]), "ncommits": len(info["commits"]),
                 "steps": [s[0] for s in steps], "log": sim.log if fails else None}
     finally:
@@ -908,6 +910,7 @@ def scenario(args):
 
 # ------------------------------------------------------------------ fixed witnesses of the known classes
 def witness_rename(base):
+    """regression witness (was C09-K1): `git mv` without an edit changes no line's attribution"""
     sim = Sim(base, "k1")
     try:
         sim.init({"f.txt": "h1\nh2\nh3\n"})
@@ -920,7 +923,24 @@ def witness_rename(base):
         commit(sim, "rename only")
         after = sim.blame("g.txt")
         h = session_hash("toolx", "s1")
-        return before == {2: h, 3: h} and after != {2: h, 3: h}, {"before": before, "after": after}
+        return before == {2: h, 3: h} and after == before, {"before": before, "after": after}
+    finally:
+        shutil.rmtree(sim.base, ignore_errors=True)
+
+
+def witness_open_L(base):
+    """regression witness (was C09-K4): -L 3 = lines 3..5, -L 2,+2 = lines 2..3 of a five-line file"""
+    sim = Sim(base, "k4")
+    try:
+        sim.init({"f.txt": "a\nb\nc\nd\ne\n"})
+        got = {}
+        for arg, want in (("3", {3, 4, 5}), ("2,+2", {2, 3}), ("4,+1", {4})):
+            rc, out, err = sim.gitai("blame", "-L", arg, "f.txt", env_extra={"GIT_PAGER": "cat", "PAGER": "cat"})
+            d = read_default(out) if rc == 0 else None
+            got[arg] = sorted(d) if d is not None else f"rc={rc} {err[-120:]}"
+            if d is None or set(d) != want:
+                return False, got
+        return True, got
     finally:
         shutil.rmtree(sim.base, ignore_errors=True)
 
@@ -1056,7 +1076,8 @@ def gen_porcelain(r, pool):
         orig = r.range(1, 12)
         author = r.pick(["Test User", "Ann B", "", "x  y ", "é", "a1a1a1a1a1a1a1a1"])
         bnd = r.chance(1, 5)
-        fname = r.pick(POOL_PATHS + ["old name.txt"])
+        fname = r.pick(POOL_PATHS + POOL_PATHS + ["old name.txt", '"dir/a b.txt"', '"g\\056txt"', '"f.txt"', '""', "",
+                                                 '"c-\\303\\251.txt"'] + (['"'] if kind == "odd" else []))
         for k in range(n):
             hdr = f"{sha} {orig + k} {fin + k}" + (f" {n}" if k == 0 else "")
             if kind == "odd":
@@ -1149,7 +1170,7 @@ def generated_tie(ctx, n_cases):
                     if extra_notes[tok] != "none":
                         ntab.append([C.cps(tok), extra_notes[tok]])
             pnorm = p[2:] if p.startswith("./") else p
-            mcases.append((i, " ".join(C.sx(x) for x in [C.cps(pnorm), o, C.cps(t), ntab, fmodel])))
+            mcases.append((i, " ".join(C.sx(x) for x in [C.cps(pnorm), o, C.cps(t), ntab, fmodel, unq_table(t)[0]])))
         mres = C.run_cases(C.driver_path("blame"), "c09-pipe", mcases)
         for i, p, o, t, kind in cases:
             a, b = canon_pipe(parse_result(himpl.get(i))), canon_pipe(parse_result(mres.get(i)))
@@ -1239,10 +1260,18 @@ def run(ctx):
                         True, f"{tot['overlap_lines']} such lines (accepted: any listing session)"))
     obligations.append(("monitor:every listed session has a prompt record somewhere", tot["orphan_sessions"] == 0,
                         f"{tot['orphan_sessions']} sessions without a record"))
+    nb = [n_ for r_ in res if "error" not in r_ for n_ in r_.get("names_bad", [])]
+    ns = sum(r_.get("names_seen", 0) for r_ in res if "error" not in r_)
+    obligations.append(("monitor:names_agree (unescape_git_path undoes git's quoting of every printed filename)",
+                        not nb and ns > 0, f"{len(nb)} of {ns} names differ: {nb[:3]}"))
 
+    # regression witnesses of repaired findings: they must pass
     ok1, d1 = witness_rename(ctx.scratch)
-    if ok1:
-        known_seen.add(K1)
+    if not ok1:
+        violations.append(("regression C09-K1: AI lines of a file renamed without an edit are no longer AI", {"witness": "rename", "detail": d1}))
+    ok4, d4 = witness_open_L(ctx.scratch)
+    if not ok4:
+        violations.append(("regression C09-K4: `-L n` / `-L n,+k` are not read as git reads them", {"witness": "-L n", "detail": d4}))
     ok2, d2 = witness_empty(ctx.scratch)
     if ok2:
         known_seen.add(K2)
@@ -1274,7 +1303,8 @@ def run(ctx):
                                    "pool_note_kinds": gen["note_kinds"], "foreign_sessions_in_pool": gen["foreign_sessions"],
                                    "json_key_samples": sorted(set(keys))[:20]},
             "line_checks": tot,
-            "known_class_witnesses": {"K1_rename": d1, "K2_empty_file": d2},
+            "known_class_witnesses": {"K2_empty_file": d2},
+            "regression_witnesses": {"K1_rename": d1, "K4_open_L": d4},
             "cli_surface_exit_codes": surface,
             "correspondence_mismatches": len(gen["mismatches"]),
             "real_text_ties": f"{sum(1 for t in ties if t)}/{len(ties)}",
